@@ -6,31 +6,7 @@
 #include <cstdlib>
 #include <cstring>
 
-// ---------------------------------------------------------------- slab allocator: controls the address ORDER of edge-list nodes
-namespace slab {
-    static bool armed = false;
-    static std::size_t node_size = 0, served = 0, want = 0;
-    static char *base = nullptr; static std::size_t stride = 0;
-    static const int *perm = nullptr;          // k-th node allocated while armed is placed in slot perm[k]
-    static std::size_t other_allocs = 0;
-    static char *lo = nullptr, *hi = nullptr;  // union of all slab regions ever handed out (never freed individually)
-}
-static void *vnew(std::size_t sz) {
-    if (slab::armed) {
-        if (sz == slab::node_size && slab::served < slab::want) { void *p = slab::base + slab::stride * slab::perm[slab::served]; ++slab::served; return p; }
-        ++slab::other_allocs;
-    }
-    void *p = std::malloc(sz ? sz : 1);
-    if (!p) throw std::bad_alloc();
-    return p;
-}
-static bool in_slab(void *p) { return slab::lo && (char*) p >= slab::lo && (char*) p < slab::hi; }
-void *operator new(std::size_t sz) { return vnew(sz); }
-void *operator new[](std::size_t sz) { return vnew(sz); }
-void operator delete(void *p) noexcept { if (p && !in_slab(p)) std::free(p); }
-void operator delete[](void *p) noexcept { if (p && !in_slab(p)) std::free(p); }
-void operator delete(void *p, std::size_t) noexcept { if (p && !in_slab(p)) std::free(p); }
-void operator delete[](void *p, std::size_t) noexcept { if (p && !in_slab(p)) std::free(p); }
+#include "common/ptrorder.hpp"
 
 #define VH_TBB 1
 #include "common/runner.hpp"
@@ -75,17 +51,15 @@ struct RankGraph {
 
 static std::unique_ptr<B> build_with_layout(const vg::EdgeList &el, const std::vector<double> &w, const std::vector<int> &perm) {
     int m = el.m();
-    slab::node_size = sizeof(std::_List_node<typename Graph::EdgeContainer::value_type>);
-    slab::stride = (slab::node_size + 15) / 16 * 16;
-    char *region = (char*) std::malloc(slab::stride * (m + 1));     // intentionally never freed individually: delete ignores slab pointers
-    if (!slab::lo || region < slab::lo) slab::lo = region;
-    if (!slab::hi || region + slab::stride * (m + 1) > slab::hi) slab::hi = region + slab::stride * (m + 1);
-    slab::base = region; slab::perm = perm.data(); slab::want = m; slab::served = 0; slab::other_allocs = 0;
-    vb::edge_alloc_begin() = [](int) { slab::armed = true; };
-    vb::edge_alloc_end() = []() { slab::armed = false; };
+    vptr::node_size = sizeof(std::_List_node<typename Graph::EdgeContainer::value_type>);
+    vptr::stride = (vptr::node_size + 15) / 16 * 16;
+    char *region = vptr::slab_region(vptr::stride * (m + 1));        // carved from the per-process pool, rewound at every execution
+    vptr::slab_base = region; vptr::perm = perm.data(); vptr::want = m; vptr::served = 0; vptr::other_allocs = 0;
+    vb::edge_alloc_begin() = [](int) { vptr::slab_armed = true; };
+    vb::edge_alloc_end() = []() { vptr::slab_armed = false; };
     std::unique_ptr<B> b(new B(el, w));
     vb::edge_alloc_begin() = nullptr; vb::edge_alloc_end() = nullptr;
-    if ((int) slab::served != m || slab::other_allocs != 0) { fprintf(stderr, "HARNESS-ERROR slab: served %zu of %d nodes, %zu foreign allocations while armed\n", slab::served, m, slab::other_allocs); exit(2); }
+    if ((int) vptr::served != m || vptr::other_allocs != 0) { fprintf(stderr, "HARNESS-ERROR slab: served %zu of %d nodes, %zu foreign allocations while armed\n", vptr::served, m, vptr::other_allocs); exit(2); }
     // achieved pointer order must be the requested one
     for (int i = 0; i < m; ++i) for (int j = 0; j < m; ++j)
         if ((perm[i] < perm[j]) != ((char*) b->edges[i].get_property() < (char*) b->edges[j].get_property())) { fprintf(stderr, "HARNESS-ERROR slab: pointer order differs from requested layout\n"); exit(2); }
@@ -100,6 +74,7 @@ static Verdict run_and_check(const Cfg &cfg, int var, int P, const vg::EdgeList 
         const vg::RefResult<double> &ref, bool rev_baton, uint64_t *collectives, uint64_t *maxout, uint64_t *multi, int *layout_dev, bool verbose = false) {
     Verdict v;
     auto menu = layout_menu(el.m(), cfg.layout_mode);
+    vptr::slab_rewind();
     std::vector<std::unique_ptr<B>> gs(P);
     for (int r = 0; r < P; ++r) { int li = vx::choose((int) menu.size(), vx::ORDER); if (li && layout_dev) ++*layout_dev; gs[r] = build_with_layout(el, w, menu[li]); }
     typedef std::list<std::list<Edge>> Cycles;
